@@ -50,9 +50,21 @@ ConfProbes(ev, e) ==
   ELSE Complain(\A i \in 1..Len(ev.pr) : ProbeOk(ev.pr[i], ProbeTarget(e, ev.pr[i].w)),
                 "later-observation-of-result")
 
+\* Three-way cross-check: where the harness could compute the result with native u128 arithmetic,
+\* core::fmt or from_str_radix it logged it as `ref`.  The SPECIFICATION must agree with that
+\* reference; if it does not, the specification is wrong (tool error), whatever the code did.
+SpecRes(ev, e) ==
+  IF ev.op \in BinOps \cup ShiftOps THEN OVec(IF IsAssignForm(ev.f) THEN e.pb ELSE e.o.b)
+  ELSE IF ev.op \in {"from_binary", "from_hex"} THEN OVec(e.pb)
+  ELSE e.o
+RefAgrees(ev, e) ==
+  IF "ref" \notin DOMAIN ev \/ e.o.t \in {"panic", "err"} THEN <<>>
+  ELSE Complain(SpecRes(ev, e) = ev.ref, "SPEC-DISAGREES-WITH-REFERENCE")
+
 \* function contract: post-state and result are exactly what Api allows
 ConfFun(ev) ==
   LET e == Api(ev) IN
+  RefAgrees(ev, e) \o
   Complain(ev.py = ev.y.b, "operand-modified") \o
   ( IF e.o.t = "panic"
     THEN Complain(ev.o.t = "panic", "expected-panic") \o
